@@ -17,6 +17,16 @@ from vf.core import quiet
 q = C08.q
 
 
+def _eq(a, b):
+    a, b = np.asarray(a), np.asarray(b)
+    return a.shape == b.shape and bool(np.array_equal(a, b))
+
+
+def _close(a, b, rtol=1e-14):
+    a, b = np.asarray(a), np.asarray(b)
+    return a.shape == b.shape and bool(np.allclose(a, b, rtol=rtol))
+
+
 def check_config(ift, c, jaxcf=None):
     out = []
     if not c["valid"]:
@@ -35,39 +45,39 @@ def check_config(ift, c, jaxcf=None):
     M[np.arange(n), bins] = 1.
     # dense TIMES and ADJOINT
     D = np.array([pd(ift.makeField(ps, np.eye(nb)[b])).asnumpy().ravel() for b in range(nb)]).T
-    if not np.array_equal(D, M):
+    if not _eq(D, M):
         out.append("PowerDistributor does not assign every mode the value of its bin")
     A = np.array([pd.adjoint_times(ift.makeField(sp, np.eye(n)[p].reshape(sp.shape))).asnumpy().ravel() for p in range(n)]).T
-    if not np.array_equal(A, M.T):
+    if not _eq(A, M.T):
         out.append("the adjoint of the PowerDistributor does not sum over each bin")
     # power analysis of a field whose squared modulus is a distributed spectrum (perfect squares: sqrt exact)
     spec = ift.makeField(ps, (np.arange(1., nb + 1) + 1) ** 2)
     amp = pd(spec).ptw("sqrt")
     bb = None if c["binning"] == "natural" else ps.binbounds
     back = ift.power_analyze(amp, binbounds=bb)
-    if back.domain[0] != ps or not np.array_equal(back.asnumpy(), spec.asnumpy()):
+    if back.domain[0] != ps or not _eq(back.asnumpy(), spec.asnumpy()):
         out.append("power_analyze(sqrt(distributed spectrum)) = %s, the spectrum is %s" % (back.asnumpy().tolist(), spec.asnumpy().tolist()))
     # with phase information: a complex field 3 a + 4 i a  -> (9 + 16 i) spectrum
     cf = ift.makeField(sp, amp.asnumpy() * (3 + 4j))
     ph = ift.power_analyze(cf, binbounds=bb, keep_phase_information=True)
-    if not np.allclose(ph.asnumpy(), spec.asnumpy() * (9 + 16j), rtol=1e-14):
+    if not _close(ph.asnumpy(), spec.asnumpy() * (9 + 16j), rtol=1e-14):
         out.append("power_analyze with phase information does not return the spectra of the real and imaginary parts")
-    if not np.allclose(ift.power_analyze(cf, binbounds=bb).asnumpy(), 25 * spec.asnumpy(), rtol=1e-14):
+    if not _close(ift.power_analyze(cf, binbounds=bb).asnumpy(), 25 * spec.asnumpy(), rtol=1e-14):
         out.append("power_analyze of a complex field is not the spectrum of its squared modulus")
     # sub-space of a product domain
     other = ift.RGSpace(2)       # a structured (position) space: unstructured domains have no volume by design and cannot be analysed
     dom = ift.DomainTuple.make((other, sp))
     f = ift.makeField(dom, np.stack([amp.asnumpy(), 2 * amp.asnumpy()]))
     pa = ift.power_analyze(f, spaces=1, binbounds=bb)
-    if not np.array_equal(pa.asnumpy(), np.stack([spec.asnumpy(), 4 * spec.asnumpy()])):
+    if not _eq(pa.asnumpy(), np.stack([spec.asnumpy(), 4 * spec.asnumpy()])):
         out.append("power_analyze over the harmonic sub-space of a product domain is wrong")
     # power operators
     try:
         op = ift.create_power_operator(sp, spec)
-        if not np.array_equal(op(ift.full(sp, 1.)).asnumpy().ravel(), spec.asnumpy()[bins]):
+        if not _eq(op(ift.full(sp, 1.)).asnumpy().ravel(), spec.asnumpy()[bins]):
             out.append("create_power_operator(Field) is not the diagonal of the distributed spectrum")
         op2 = ift.create_power_operator(dom, spec, space=1)
-        if not np.array_equal(op2(ift.full(dom, 1.)).asnumpy()[1].ravel(), spec.asnumpy()[bins]):
+        if not _eq(op2(ift.full(dom, 1.)).asnumpy()[1].ravel(), spec.asnumpy()[bins]):
             out.append("create_power_operator on a sub-space is not the diagonal of the distributed spectrum")
     except Exception as e:
         out.append("create_power_operator with a spectrum given as a Field raised %s: %s" % (type(e).__name__, str(e)[:100]))
@@ -101,7 +111,7 @@ def check_config(ift, c, jaxcf=None):
                 out.append("useful_binbounds(logarithmic=%s) raised %s: %s" % (logarithmic, type(e).__name__, str(e)[:100]))
         fn = lambda k: 1. / (1. + k) ** 2
         op3 = ift.create_power_operator(sp, fn)
-        if not np.allclose(op3(ift.full(sp, 1.)).asnumpy().ravel(), fn(np.asarray(ps.k_lengths))[bins], rtol=1e-14):
+        if not _close(op3(ift.full(sp, 1.)).asnumpy().ravel(), fn(np.asarray(ps.k_lengths))[bins], rtol=1e-14):
             out.append("create_power_operator(function) is not the function of the bins' k-lengths distributed")
         if jaxcf is not None:
             # the JAX correlated field uses the same natural binning of the modes of a position-space grid
@@ -110,7 +120,7 @@ def check_config(ift, c, jaxcf=None):
             pos_dist = 1.0 / (np.array(shape) * hd)
             idx, uniq, mult = jaxcf.get_fourier_mode_distributor(shape, tuple(pos_dist))
             cnt = np.array([b["count"] for b in sorted(c["bins"], key=lambda b: b["bin"])])
-            if not (np.array_equal(np.asarray(idx).ravel(), bins) and np.array_equal(np.asarray(mult), cnt)):
+            if not (_eq(np.asarray(idx).ravel(), bins) and _eq(np.asarray(mult), cnt)):
                 out.append("nifty.re get_fourier_mode_distributor bins the modes differently: %s vs %s" % (np.asarray(idx).ravel().tolist(), bins.tolist()))
     return out
 
